@@ -56,6 +56,7 @@ fn main() {
             "C13" => props::c13::replay(case),
             "C14" => props::c14::replay(case),
             "C16" => props::c16::replay(case),
+            "C18" => props::c18::replay(case),
             _ => {
                 eprintln!("no replay for {id}");
                 2
@@ -72,6 +73,7 @@ fn main() {
         "C13" => props::c13::run(tier),
         "C14" => props::c14::run(tier),
         "C16" => props::c16::run(tier),
+        "C18" => props::c18::run(tier),
         _ => {
             eprintln!("unknown property {id}");
             2
